@@ -317,6 +317,12 @@ func checkC20(c *core.Ctx) {
 			loadNamed(gs.doc.Items(), f.Involved, "faulty schema: "+f.What)
 		}
 	}
+	// hand-written type systems (most of them ill-formed), each in a named file of its own
+	for hi, sdl := range handSchemas {
+		name := fmt.Sprintf("hand%d.graphql", hi)
+		_, err := gqlparser.LoadSchema(&ast.Source{Name: name, Input: sdl})
+		add("load", err, nil, []string{name, "prelude.graphql"}, fmt.Sprintf("hand-written schema %q", clip(sdl, 200)))
+	}
 	// validation and coercion on a few schemas
 	nsch := 2
 	if c.Thorough() {
